@@ -2,6 +2,7 @@ package main
 
 import (
 	"go/token"
+	"strings"
 
 	"golang.org/x/tools/go/ssa"
 )
@@ -266,6 +267,63 @@ func runC29(w *World, r *Report) {
 			r.Violate("R-C29-3", key, w.pos(s.Pos()), problems[0])
 		} else {
 			r.Discharge("R-C29-3", key, w.pos(s.Pos()), "one site, one loop over active members, constant hop count, no early exit")
+		}
+	}
+
+	// every received flush is applied: no way through the handler that skips PurgeLocal, other than the three refusals
+	r.Rule("R-C29-5", "completeness on the receiving side: every path through FlushCacheHandler to a return calls caches.PurgeLocal, except the refusals it states: invalid cluster token, undecodable body, hop limit exceeded", 1)
+
+	{
+		key := "cluster.FlushCacheHandler|every accepted flush is applied"
+
+		cuts := cutEdges(handler, func(f Fact) bool {
+			switch f.Kind {
+			case "false":
+				c, ok := f.V.(*ssa.Call)
+
+				return ok && callID(c.Common()) == "internal/server/cluster.ValidateClusterToken"
+			case "nonnil":
+				c, idx := resultOf(f.V)
+				if c == nil {
+					if cc, ok := f.V.(*ssa.Call); ok {
+						c, idx = cc, 0
+					}
+				}
+
+				return c != nil && idx == 0 && callID(c.Common()) == "encoding/json.Decoder.Decode"
+			case "cmp":
+				// Hops > maxFlushHops
+				if f.Op != token.GTR && f.Op != token.GEQ {
+					return false
+				}
+
+				_, isC := f.Y.(*ssa.Const)
+
+				return isC && strings.Contains(c40Describe(resolveLocal(f.X)), "Hops")
+			}
+
+			return false
+		})
+
+		isPurge := func(in ssa.Instruction) bool {
+			c, ok := in.(*ssa.Call)
+
+			return ok && calleeFunction(c.Common()) == purgeLocal
+		}
+
+		bad := pathFromEntryAvoiding(handler, cuts, isPurge, func(in ssa.Instruction) bool {
+			_, isRet := in.(*ssa.Return)
+
+			return isRet
+		})
+
+		switch {
+		case len(cuts) < 3:
+			r.Violate("R-C29-5", key, w.pos(handler.Pos()), "the three refusal tests of the flush handler (cluster token, body decode, hop limit) were not all found: "+sprintInt(len(cuts))+" edges")
+		case bad != nil:
+			r.Violate("R-C29-5", key, w.pos(bad.Pos()), "the handler can answer a well-formed, authenticated, in-limit flush without calling caches.PurgeLocal (return at "+w.pos(bad.Pos())+"): that peer keeps its stale cache")
+		default:
+			r.Discharge("R-C29-5", key, w.pos(handler.Pos()), "PurgeLocal is on every path to a return once the token, decode and hop-limit refusals are removed")
 		}
 	}
 
